@@ -94,6 +94,7 @@ def native_unit_text(u, under):
         al = ', '.join(names)
         o.append('      Sc want = 0; tried++; if (!twin_%s(%s&want)) continue;' % (f.cname, al + (', ' if al else '')))
         o.append('      Sc got = %s(%s); if (vf_assume_failed) continue; evald++;' % (f.cname, al))
+        o.append('      if (!isfinite(got) || !isfinite(want)) continue;   /* overflow/NaN at an extreme sample is not a counterexample */')
         o.append('      Sc sc_ = fabsl(got) > fabsl(want) ? fabsl(got) : fabsl(want); if (sc_ < 1) sc_ = 1;')
         o.append('      if (!(fabsl(got - want) <= 1e-9L * sc_)) { printf("{\\"found\\": true, \\"function\\": \\"%s\\", "); dump();' % f.cname)
         o.append('        printf(", \\"args\\": [%s]", %s);' % (', '.join('\\"%.21Lg\\"' if k == 'scalar' else '%d' for t, n, k in sc),
@@ -189,8 +190,8 @@ def differs(a, b):
         x, y = Decimal(a), Decimal(b)
     except Exception:
         return True
-    if x.is_nan() or y.is_nan():
-        return True
+    if x.is_nan() or y.is_nan() or x.is_infinite() or y.is_infinite():
+        return False      # non-finite on either side decides nothing
     sc = max(abs(x), abs(y), Decimal(1))
     return abs(x - y) > Decimal('1e-9') * sc
 
@@ -234,8 +235,18 @@ def run_numeric(prop, units, tier, seed, trusted_extra=(), design_ref='', lemmas
                                                    'explanation': 'extraction break: %s' % e}, TRUSTED_NUMERIC, time.time() - t0, 0)
         return rc
 
+    class _L:      # lemma pseudo-function / pseudo-unit
+        pass
+    for ln_ in lemmas:
+        lu, lf = _L(), _L()
+        lu.dir, lu.cls, lu.src, lu.under, lu.replace, lu.timeout, lu.header = base, 'lemma', 'contracts/lemmas.c', [], {}, None, ''
+        lf.cname, lf.name, lf.sha, lf.args, lf.is_lemma = ln_, ln_, 'n/a', [], True
+        jobs.append((lu, lf, os.path.join(CONTRACTS, 'lemmas.c')))
+
     def work(job):
         u, f, hf = job
+        if getattr(f, 'is_lemma', False):
+            return job, cbmc_job(u.dir, f.cname, hf, f.cname, enforce=None, smt=True, timeout=tmo, own_prefixes=(f.cname,))
         return job, cbmc_job(u.dir, f.cname, hf, 'h_' + f.cname, enforce=f.cname, replace=u.replace.get(f.cname, ()), smt=True,
                              timeout=u.timeout or tmo)
 
@@ -257,7 +268,7 @@ def run_numeric(prop, units, tier, seed, trusted_extra=(), design_ref='', lemmas
         if r.status == 'discharged' and r.canary != 'reachable':
             # vacuity guard could not be decided by the solvers: fall back to concrete reachability of the contract's
             # precondition in the native twin (weaker: shows requires is satisfiable over the reals, not the axioms' consistency)
-            nr = native_search(u, u.under, f, seed, 2000)
+            nr = native_search(u, u.under, f, seed, 2000) if not getattr(f, 'is_lemma', False) else {}
             if nr.get('found') or nr.get('evaluated', 0) > 0:
                 per_fn[-1]['canary'] = 'native-reachable'
             else:
@@ -268,6 +279,9 @@ def run_numeric(prop, units, tier, seed, trusted_extra=(), design_ref='', lemmas
             n_dis += len(r.obligations)
             if len(samples) < 6:
                 samples.append({'function': f.cname, 'obligations': [o[0] + ': ' + o[2] for o in r.obligations][:8], 'backend': r.backend})
+            continue
+        if getattr(f, 'is_lemma', False):
+            rep.undecide('lemma %s not discharged (%s %s)' % (f.cname, r.status, r.detail))
             continue
         # not discharged: search for a concrete input, then replay on the real class
         found = native_search(u, u.under, f, seed, N)
